@@ -7,16 +7,16 @@ package http
 // Config unchanged; nothing is delivered before Run (unbuffered sink).
 //@ func NewProvider
 //@ props C14 C08 C07
-//@ ensures [unknown-format-is-an-error] imp(!conf.Decoder.IsValid(), result1 != nil && result0 == nil && calls(decoders.NewDecoder) == 0)
+//@ ensures [unknown-format-is-an-error] imp(!conf0.Decoder.IsValid(), result1 != nil && result0 == nil && calls(decoders.NewDecoder) == 0)
 //@ ensures [source-failure-is-an-error] imp(calls(uriReadSeekCloser) == 1 && result_of(uriReadSeekCloser, 2) != nil || calls(fileReadSeekCloser) == 1 && result_of(fileReadSeekCloser, 2) != nil, result1 != nil && result0 == nil)
 //@ ensures [decoder-failure-is-an-error] imp(calls(decoders.NewDecoder) == 1 && result_of(decoders.NewDecoder, 1) != nil, result1 != nil && result0 == nil)
-//@ ensures [inline-uris-or-the-file] imp(conf.Decoder.IsValid(), iff(len(conf.Uris) > 0, calls(uriReadSeekCloser) == 1) && iff(len(conf.Uris) == 0, calls(fileReadSeekCloser) == 1))
-//@ ensures [provider-with-the-given-options] imp(result1 == nil, typeis(result0, *provider.Provider) && result0.(*provider.Provider).Config == conf && result0.(*provider.Provider).Decoder == result_of(decoders.NewDecoder, 0) && cap(result0.(*provider.Provider).Sink) == 0 && !closed(result0.(*provider.Provider).Sink))
+//@ ensures [inline-uris-or-the-file] imp(conf0.Decoder.IsValid(), iff(len(conf0.Uris) > 0, calls(uriReadSeekCloser) == 1) && iff(len(conf0.Uris) == 0, calls(fileReadSeekCloser) == 1))
+//@ ensures [provider-with-the-given-options] imp(result1 == nil, typeis(result0, *provider.Provider) && result0.(*provider.Provider).Config == conf0 && result0.(*provider.Provider).Decoder == result_of(decoders.NewDecoder, 0) && cap(result0.(*provider.Provider).Sink) == 0 && !closed(result0.(*provider.Provider).Sink))
 // With chosencases the limit counts delivered entries, so the decoder (which counts scanned ones) gets no limit and the
 // provider applies it after filtering; everything else reaches the decoder as configured.
 //@ at call decoders.NewDecoder assert [the-decoder-leaves-the-limit-to-the-provider-when-entries-are-filtered] arg(conf).Limit == ite(len(conf0.ChosenCases) > 0, 0, conf0.Limit)
 //@ at call decoders.NewDecoder assert [the-rest-of-the-configuration] arg(conf).Decoder == conf0.Decoder && arg(conf).File == conf0.File && arg(conf).Headers == conf0.Headers && arg(conf).Passes == conf0.Passes && arg(conf).Uris == conf0.Uris && arg(conf).ContinueOnError == conf0.ContinueOnError && arg(conf).MaxAmmoSize == conf0.MaxAmmoSize && arg(conf).ChosenCases == conf0.ChosenCases && arg(conf).Preload == conf0.Preload
-//@ at call fileReadSeekCloser assert [the-configured-file] arg(path) == conf.File && arg(fs) == fs0
+//@ at call fileReadSeekCloser assert [the-configured-file] arg(path) == conf0.File && arg(fs) == fs0
 //@ at call uriReadSeekCloser assert arg(conf) == conf0
 
 //@ func fileReadSeekCloser
